@@ -13,6 +13,7 @@ CONSTANTS MaxFiles,      \* bound on the number of input files of a definition
           WithBlank,     \* include a directory whose name contains a blank
           ListWithF,     \* combine the list-of-files field with the single-file fields
           ListPlain,     \* list-of-files definitions only without output field, forward order
+          Rich,          \* more variety for the second single-file field and the layouts
           Shard, NShards
 
 VARIABLES ff, fg, fl, fo, ord, rt, rid
@@ -22,6 +23,7 @@ None == [kind |-> "none"]
 
 Dirs == { << W("d1") >>, << W("d2") >>, << W("d1"), W("sub") >> }
         \cup (IF WithBlank THEN { << << "d", "1" >> >> } ELSE {})
+        \cup (IF WithBlank /\ Rich THEN { << << "d", "1" >>, W("sub") >> } ELSE {})
 
 RootOf(i) == CASE i = 1 -> [p |-> << W("mnt"), W("pydra") >>, slash |-> FALSE, dflt |-> TRUE]
                [] i = 2 -> [p |-> << W("r") >>, slash |-> FALSE, dflt |-> FALSE]
@@ -37,8 +39,11 @@ FOpts == { Fld("f", "file", fl0, FALSE, "any", << File(d, "a.txt") >>, "")
              : fl0 \in {"", "-f"}, d \in Dirs }
          \cup { Fld("f", "file", fl0, FALSE, m, << File(<< W("d1") >>, "a.txt") >>, "")
              : fl0 \in {"", "-f"}, m \in CopyModesF \ {"any"} }
-GOpts == { Fld("g", "file", "-g", FALSE, "any", << File(d, "b.txt") >>, "") : d \in Dirs }
-         \cup { Fld("g", "file", "-g", FALSE, "copy", << File(<< W("d2") >>, "b.txt") >>, "") }
+GFlags == {"-g"} \cup (IF Rich THEN {""} ELSE {})
+GModes == {"copy"} \cup (IF Rich THEN {"link"} ELSE {})
+GOpts == { Fld("g", "file", fl0, FALSE, "any", << File(d, "b.txt") >>, "") : fl0 \in GFlags, d \in Dirs }
+         \cup { Fld("g", "file", fl0, FALSE, m, << File(<< W("d2") >>, "b.txt") >>, "")
+                : fl0 \in GFlags, m \in GModes }
 L1Opts == { Fld("l", "list", "-l", r, "any", << File(d, "c.txt") >>, "") : r \in BOOLEAN, d \in Dirs }
           \cup { Fld("l", "list", "-l", r, "copy", << File(<< W("d2") >>, "c.txt") >>, "") : r \in BOOLEAN }
 L2Opts == { Fld("l", "list", "-l", r, "any", << File(d, "c.txt"), File(e, "d.txt") >>, "")
